@@ -118,10 +118,28 @@ def main(argv=None):
                     futs[ex.submit(_worker, j)] = j
                 except Exception as e:      # noqa: BLE001  (pool already broken while submitting)
                     lost.append((j, e))
+            timed_out = 0
             for fu in cf.as_completed(futs):
                 j = futs[fu]
+                if fu.cancelled():
+                    results.append(dict(paths=0, violations=[], inconclusive=["not run: several jobs had already hit "
+                                                                              "their time limit"],
+                                        mismatches=[], validated=0, samples=[], reach=[], stats={}, exhausted=False,
+                                        functions=[], rewrites={},
+                                        job=dict(harness=hname, func=j["func"], params=j.get("params")), wall_s=0))
+                    continue
                 try:
-                    results.append(fu.result())
+                    r = fu.result()
+                    results.append(r)
+                    if any("time limit" in m for m in r.get("inconclusive", [])):
+                        timed_out += 1
+                        if timed_out == 8:
+                            # something makes the paths explode on this tree: the verdict is "inconclusive" anyway,
+                            # do not spend the time limit of every remaining job on it
+                            for f2 in futs:
+                                f2.cancel()
+                except cf.CancelledError:
+                    pass
                 except Exception as e:      # noqa: BLE001
                     lost.append((j, e))
         if not lost:
